@@ -63,13 +63,16 @@ def statement(ctx, rows_in, out, err, form):
     return True
 
 
-def run_list(rows, batch_size, as_dict):
+def run_list(rows, batch_size, as_dict, ids=None):
     import copy
 
     from synrbl import Balancer
 
     b = Balancer(n_jobs=1, batch_size=batch_size)
     data = [{"reaction": x, "tag": i} for i, x in enumerate(rows)] if as_dict else copy.deepcopy(rows)
+    if ids is not None:  # rows that carry their own value in the column the tool uses as id
+        for d, v in zip(data, ids):
+            d["id"] = v
     try:
         return b.rebalance(data, output_dict=True), None
     except Exception as e:
@@ -168,6 +171,23 @@ def explore(ctx, seqs, stop_on_first=False):
             out, err = run_list(rows, bs, as_dict=True)
             if not statement(ctx, rows, out, err, "dict") and stop_on_first:
                 return
+        # the caller's own `id` column (1-based, reversed, arbitrary strings): it must not steer where results are written
+        idforms = [[i + 1 for i in range(n)], list(range(n))[::-1], ["r%d" % (7 * i) for i in range(n)]]
+        if ctx.tier == "quick":
+            idforms = [ctx.rng.choice(idforms)] if n <= 3 else []
+        for ids in idforms:
+            out, err = run_list(rows, ctx.rng.choice([None, 2]), as_dict=True, ids=ids)
+            if not statement(ctx, rows, out, err, "dict+id") and stop_on_first:
+                return
+            if out is not None and err is None:
+                alone = [run_list([x], None, as_dict=True)[0] for x in rows]
+                for i, (a, o) in enumerate(zip(alone, out)):
+                    if a and (a[0].get("reaction"), a[0].get("solved")) != (o.get("reaction"), o.get("solved")):
+                        ctx.violation("row-result-depends-on-caller-id-column", {"rows": [describe(x) for x in rows], "ids": ids, "position": i},
+                                      "alone: %s / with ids: %s" % (a[0].get("reaction"), o.get("reaction")), "synrbl/rule_based.py id write-back")
+                        if stop_on_first:
+                            return
+                        break
 
 
 def search(ctx):
